@@ -31,7 +31,22 @@ META = {
             "worker only, FIFO). The validator model abstracts each worker queue as a bounded FIFO list; "
             "C16_ring_refines_fifo_partial proves that the Vyukov ring buffer as coded (sequence-numbered cells, positions, "
             "index = pos mod size) answers every push/pop sequence exactly like that bounded FIFO across any number of "
-            "wrap-arounds (sequential executions only), the ring model is compared with the real MPMCBoundedQueue "
+            "wrap-arounds (sequential executions only; kept as _partial). For CONCURRENT access the queue is modelled at "
+            "step level (Conc/RingSteps.v: load position, load cell sequence, compare, strong or spuriously failing CAS, "
+            "data write/move, sequence store, full/empty exits, both retry loops; any number of threads, any programs of "
+            "pushes and pops, every schedule): an invariant over cells, counters and in-flight operations is proved "
+            "inductive for every step of every thread, and from it C16_ring_linearizable (the successful operations "
+            "linearize at their successful CAS to the same bounded FIFO, thread by thread exactly what the threads "
+            "return), C16_ring_real_time_order, C16_ring_no_loss_no_dup (pushed = popped ++ contents at every point, "
+            "capacity never exceeded), C16_ring_full_answer_justified / C16_ring_empty_answer_justified (a failing "
+            "answer means: full/empty at the moment of the sequence load, OR the cell is held by an operation between its "
+            "CAS and its sequence store). The second alternative is real: C16_ring_empty_with_inflight_push_example shows "
+            "pop answering 'empty' after another thread's push has completely returned (failing answers of this queue are "
+            "not linearizable in the strict sense; the pool's worker loop polls, so this only delays a task). "
+            "C16_ring_cas_collision_example exhibits two producers colliding on the CAS and one retrying. Assumed in that "
+            "model, not proved: sequentially consistent atomics (the relaxed/acquire/release orders of the code are "
+            "outside the model) and unbounded counters (the 2^64 wrap of size_t needs the power-of-two capacity the "
+            "constructor enforces). The sequential ring model is compared with the real MPMCBoundedQueue "
             "template on fill/drain sequences, and long-lived validators with small configured limits (queue capacity "
             "4..16, >= 5 wrap-arounds per worker) are run like every other case. C16_qcap_fits_limits: the capacity the "
             "code derives (upper_power_of_two of maxWorkerQueueSize(), whose sum expression is regenerated from "
@@ -42,7 +57,8 @@ META = {
             "that (3x same object, copy, fresh bytes) and planted invalid payloads include valid-tx/wrong-merkle-path "
             "ATVs and VTBs and wrong-merkle-root blocks of proof.",
     "note": "Honest limit: the theorems cover the scheduling logic of the model for all schedules; data-race freedom and "
-            "memory safety of the compiled C++ (thread pool, MPMC queue, futures) are observed by sanitizers, not proved. "
+            "memory safety of the compiled C++ (thread pool, MPMC queue, futures) are observed by sanitizers, not proved; the step-level "
+            "ring theorems assume sequentially consistent atomics. "
             "VTBs are hand-built (no Bitcoin context blocks; the header hook with delays/trace runs for ATVs only). VbkBlocks carry precalculated hashes in "
             "the sanitizer variants (vProgPoW costs ~100 s per epoch under TSan and is slow at -O0 under ASan); the rel "
             "variant computes real hashes on the workers. Trusted: Coq kernel, extraction, OCaml driver, C++ harness, "
@@ -387,12 +403,14 @@ def run(ctx):
     ctx.cov["verdicts_agreeing"] = agreed
     ctx.cov["distribution"] = hist
     ctx.cov["sanitizer_variants"] = [v for v, _ in plan]
-    ctx.cov["partial_theorems"] = ["C16_ring_refines_fifo_partial (one push/pop at a time; concurrent CAS interleavings "
-                                    "and 2^64 position wrap not modelled)", "C16_no_deadlock_partial (enabledness only, no termination measure)"]
+    ctx.cov["partial_theorems"] = ["C16_ring_refines_fifo_partial (one push/pop at a time; the concurrent CAS interleavings "
+                                    "are covered by C16_ring_linearizable & co. under sequentially consistent atomics; "
+                                    "memory-order weakening and the 2^64 position wrap are not modelled)", "C16_no_deadlock_partial (enabledness only, no termination measure)"]
     ctx.cov["refuted_theorems"] = ["C16_released_on_return_v0_refuted (old code, repaired by /repo 9e8bd1f5)"]
     ctx.cov["trusted_base"] = [
-        "modelled, not verified: MPMC bounded queue, std::future/packaged_task, std::thread (linearizable FIFO / one-shot "
-        "promise assumed); payload checks as precomputed booleans",
+        "modelled, not verified: std::future/packaged_task, std::thread (one-shot promise assumed); the MPMC bounded queue "
+        "is verified at step level against the bounded FIFO under sequentially consistent atomics and unbounded counters "
+        "(memory-order weakening not modelled); payload checks as precomputed booleans",
         "ASan+UBSan (-O0) and TSan builds of the whole library observe memory safety / data races on the executed "
         "schedules only",
     ]
